@@ -50,6 +50,7 @@ Record proc := mkProc {
 Record adv := mkAdv {
   a_fail : bool;                (* this step ends with an error return *)
   a_init : bool;                (* LoadOrInit: no stored data, initialisation needed *)
+  a_skip : bool;                (* hwmon: minPwm and maxPwm configured, placeholder data instead of the initialisation sequence *)
   a_sweep : bool;               (* Attach/Map: the PWM map is computed by sweeping the fan *)
   a_dev : dev;                  (* device state the step leaves behind when it touches the fan *)
   a_rp : rverdict; a_rm : rverdict;   (* capture reads *)
@@ -101,14 +102,20 @@ Definition ctrl_adv (D : Defects) (canc : bool) (c : ctrl) (a : adv) : ctrl :=
       if a_init a then
         match c_backend c with
         | BHwmon =>
-            let c1 := touch c (a_dev a) in               (* RunInitializationSequence *)
-            if a_fail a then do_restore D c1 (a_plan a) PReturned true
-            else set_phase c1 PAttach
+            if a_skip a then
+              (if a_fail a then return_err c else set_phase c PAttach)   (* placeholder data, SaveFanPwmData: nothing touched *)
+            else
+              let c1 := touch c (a_dev a) in             (* RunInitializationSequence *)
+              if a_fail a then do_restore D c1 (a_plan a) PReturned true
+              else set_phase c1 PAttach
         | _ => if a_fail a then return_err c else set_phase c PAttach     (* SaveFanPwmData *)
         end
       else set_phase c PAttach
   | PAttach =>
-      if a_fail a then return_err c                      (* LoadFanPwmData / AttachFanRpmCurveData: no restore *)
+      if a_fail a then                                   (* LoadFanPwmData / AttachFanRpmCurveData failed *)
+        if c_touched c && negb (d23_no_restore_after_init D)
+        then do_restore D c (a_plan a) PReturned true    (* the initialisation sequence has touched the fan *)
+        else return_err c
       else
         let c1 := if a_sweep a then touch c (a_dev a) else c in
         mkCtrl (c_backend c1) (c_exists c1) (c_has_rpm c1) PFirstSecond (c_orig c1) (c_dev c1) true
